@@ -665,7 +665,7 @@ func init() {
 func init() {
 	register(&PropSpec{
 		ID:   "C10",
-		Pkgs: []string{"root", "band"},
+		Pkgs: []string{"root", "band", "clocksync", "multicastsetup", "fragmentation", "firmwaremanagement"},
 		Items: func(tier string, seed int64) []Item {
 			var it []Item
 			for _, l := range pick(tier, rng(5, 24), rng(5, 40)) {
@@ -708,6 +708,15 @@ func init() {
 			for n := 0; n < 14; n++ {
 				for _, steps := range pick(tier, []int{1, 2}, []int{1, 2, 3}) {
 					it = append(it, Item{PkgKey: "band", Func: "VerifC10_BandSharing", Shape: []int{n, steps}})
+				}
+			}
+			for _, pk := range []string{"clocksync", "multicastsetup", "fragmentation", "firmwaremanagement"} {
+				for up := 0; up <= 1; up++ {
+					for idx := 0; idx <= 5; idx++ {
+						for _, l := range []int{1, 2, 5, 10} {
+							it = append(it, Item{PkgKey: pk, Func: "VerifC10_ReusePayload", Shape: []int{up, idx, l}})
+						}
+					}
 				}
 			}
 			return it
